@@ -12,7 +12,29 @@ use prio::codec::{Encode, ParameterizedDecode};
 use prio::field::{Field128, FieldElement};
 use prio::flp::gadgets::{Mul, ParallelSum, ParallelSumGadget, ParallelSumMultithreaded};
 use prio::flp::{FlpError, Gadget};
+#[cfg(feature = "stub")]
 use rayon::sim;
+/// Fallback build (/verif/vsim-real: the real rayon crate, used when the tree under test does not
+/// compile against the stub): no tape, the parallel calls run on rayon's own pool.
+#[cfg(not(feature = "stub"))]
+mod sim {
+    #[derive(Clone, Debug, Default)]
+    pub struct Config {
+        pub threads: usize,
+        pub tape: Vec<u32>,
+        pub widened: bool,
+    }
+    #[derive(Clone, Debug, PartialEq, Eq, Hash)]
+    #[allow(dead_code)]
+    pub enum Task {
+        Leaf { id: u32, lo: usize, hi: usize },
+        Reduce { id: u32, left: u32, right: u32 },
+    }
+    pub fn install(_: Config) {}
+    pub fn uninstall() -> (Vec<Task>, u64, usize) {
+        (Vec::new(), 0, 0)
+    }
+}
 use serde::{Deserialize, Serialize};
 use serde_json::{json, Value};
 use std::cell::RefCell;
@@ -179,6 +201,9 @@ fn note_trace(ctx: &mut Ctx, trace: &[sim::Task], calls: u64, used: usize, sched
     ctx.sig.u64(h.finish());
     ctx.trace.u64(h.finish()).u64(calls).u64(used as u64);
     ctx.events += trace.len() as u64;
+    if cfg!(not(feature = "stub")) {
+        ctx.counters.inc("engine.fallback_real_rayon_in_process");
+    }
     ctx.counters.add("simrayon.parallel_calls", calls);
     ctx.counters.add("simrayon.tasks", trace.len() as u64);
     if calls > 0 {
